@@ -473,3 +473,30 @@ def finding_key(c, got, exp):
         return f"entries:{c['fmt']}:{'gz' if c['gz'] else 'plain'}:{'crlf' if c['crlf'] else 'lf'}:{'lazy' if c['lazy'] else 'eager'}:" + ("error" if "err" in got else "differs")
     tail = "nl" if (c["file"] and c["file"][-1] == 10) else "no-final-newline"
     return f"{c['op']}:{c['fmt']}:{c.get('mode', '')}:{tail}:" + ("error" if isinstance(got, dict) and "err" in got else "lost-or-changed")
+
+
+def tags(c, got):
+    """input distribution recorded in the evidence"""
+    t = ["fmt:" + c["fmt"], "op:" + c["op"]]
+    if c["op"] == "entries":
+        L = len(c["header"]) + sum(len(e) for e in c["ents"])
+        t += ["gz" if c["gz"] else "plain", "final-newline" if c["nl"] else "no-final-newline", "crlf" if c["crlf"] else "lf",
+              "lazy" if c["lazy"] else "eager", "entries:%s" % ("0" if not c["ents"] else "1" if len(c["ents"]) == 1 else "2-5" if len(c["ents"]) <= 5 else ">5"),
+              "k:" + ("1" if c["k"] == 1 else "<longest-entry" if c["k"] < c["longest"] else "<file" if c["k"] < L else ">=file"),
+              "size:" + ("<100B" if L < 100 else "<10kB" if L < 10000 else "<1MB" if L < 1 << 20 else ">=1MB")]
+        if c.get("other"):
+            t.append("two-readers:" + c["other"]["mode"])
+        if c.get("maxk"):
+            t.append("max_chunk_size")
+        if c.get("keep"):
+            t.append("chunks-kept-alive")
+    else:
+        L = len(c["file"])
+        t += ["mode:" + c.get("mode", "-"), "final-newline" if (c["file"] and c["file"][-1] == 10) else "no-final-newline"]
+        if "k" in c:
+            t.append("k:" + ("1" if c["k"] == 1 else "divides-size" if L and L % c["k"] == 0 else "<file" if c["k"] < L else ">=file"))
+        if "cap" in c:
+            t.append("max_chunk_size")
+    if isinstance(got, dict):
+        t.append("outcome:" + ("error:" + str(got["err"]) if "err" in got else "whole-read-error" if "whole_err" in got else "completed"))
+    return t
